@@ -436,6 +436,8 @@ def emit(seed, tier, with_numpy=False):
                 else:
                     ops += composite_tail(rng, re, n)
                 job = {"kind": "driver", "driver": drv, "x": [fbits(v) for v in x], "ops": bitsify(ops)}
+                if n % 3 == 2 or n >= 11:
+                    job["list_use"] = True
                 if drv == "jacobian":
                     nreg = n + len(ops)
                     job["rets"] = sorted({nreg - 1, rng.below(nreg), rng.below(nreg)})
@@ -460,6 +462,8 @@ def emit(seed, tier, with_numpy=False):
             else:
                 ops += composite_tail(rng, re, m + n)
             jobs.append({"kind": "driver", "driver": "partial_hessian", "x": [fbits(v) for v in x], "y": [fbits(v) for v in y], "ops": bitsify(ops)})
+            if (m + n) % 3 == 0:
+                jobs[-1]["list_use"] = True
     return jobs
 
 
@@ -667,6 +671,15 @@ def call_python_driver(nd, job, seen):
 
     def body(*args):
         regs = []
+        if job.get("list_use"):
+            # the callable treats the vector it is handed as what the Rust closure gets - a vector of its own that it may
+            # copy, extend and assign into (here: in ways that leave it as it was).  Every driver hands out lists.
+            for a in args:
+                if not isinstance(a, (int, float)) and hasattr(a, "__len__") and len(a) > 0:
+                    a.append(a[0])
+                    a.pop()
+                    a[0] = a[0]
+                    a[:] = a.copy()
         for a in args:
             regs += list(a) if isinstance(a, (list, tuple)) else [a]
         for op in job["ops"]:
